@@ -69,6 +69,8 @@ def run(ctx):
          "hello BOB?|hello AL!|[1][2]", "decorator-forwards-arguments"),
         ('<%! \ndef up(fn):\n    def go(context, name):\n        return fn(name.upper())\n    return go\n%><%def name="outer()"><%def name="inner(name)" decorator="up">in ${name}</%def>${inner("x")}</%def>${outer()}',
          "in X", "decorator-inline"),
+        # keyword-only parameters cannot be passed by position (the bare * of a signature must be kept)
+        ('<%def name="kwonly(a, *, b)">${a}${b}</%def><% \ntry:\n    r = kwonly("1", "2")\nexcept TypeError:\n    r = "TypeError"\n%>${r}', "TypeError", "bare-star-dropped"),
         # a decorated def nested in a call is a member of caller like any other
         ('<%! \ndef deco(fn):\n    def go(context, *a, **k):\n        context.write("<")\n        fn(*a, **k)\n        context.write(">")\n        return ""\n    return go\n%>'
          '<%def name="f()">${caller.inner()}|${caller.body()}</%def><%call expr="f()"><%def name="inner()" decorator="deco">IN</%def>b</%call>', "<IN>|b", "decorated-def-in-call"),
